@@ -578,3 +578,35 @@ Proof.
   - assert (Mget x c i = 0) by exact RL. rewrite H in *. repeat split; (lra || nra).
 Qed.
 End Nonneg.
+
+(* ---------- admm with non_negative=True returns a non-negative x (any tl.solve, any data, any tol) ---------- *)
+Definition nonnegm (A : mat) : Prop := Forall (Forall (fun v => 0 <= v)) A.
+Lemma relu_nonneg v : 0 <= relu Rops v.
+Proof. unfold relu. cbn [fleb f0 Rops]. unfold Rleb. destruct (Rle_dec 0 v); lra. Qed.
+Lemma apply_nonneg_nonneg (T : mat) : nonnegm (apply_constr Rops KNonneg T).
+Proof.
+  cbn [apply_constr]. unfold nonnegm, mmap. apply Forall_map, Forall_forall. intros row _.
+  apply Forall_map, Forall_forall. intros v _. apply relu_nonneg.
+Qed.
+Lemma admm_nonneg_loop (solve : mat -> mat -> mat) UtM UtU m r tol fuel : forall x xs d, nonnegm x ->
+  nonnegm (fst (fst (admm_loop Rops solve (apply_constr Rops KNonneg) UtM UtU m r tol fuel x xs d))).
+Proof.
+  induction fuel as [|f IH]; intros x xs d Hx; [exact Hx|]. cbn [admm_loop].
+  assert (B : nonnegm (fst (fst (admm_body Rops solve (apply_constr Rops KNonneg) UtM UtU m r x d)))) by (unfold admm_body; cbn [fst]; apply apply_nonneg_nonneg).
+  destruct (admm_body Rops solve (apply_constr Rops KNonneg) UtM UtU m r x d) as [[x' xs'] d']. cbn [fst] in B.
+  destruct (admm_stop Rops m tol x x' xs' d'); [exact B | now apply IH].
+Qed.
+Theorem admm_nonneg_returns_nonneg (solve : mat -> mat -> mat) nc order UtM UtU x dual m r n tol x' xs' d' :
+  admm Rops solve (Some nc) order (KNonneg) UtM UtU x dual m r n tol = Ok (x', xs', d') -> nonnegm x'.
+Proof.
+  destruct n as [|n]; [discriminate|]. unfold admm. destruct (prox_call Rops (Some nc) order KNonneg x); [|discriminate].
+  pose proof (admm_loop_ran Rops solve (apply_constr Rops KNonneg) UtM UtU m r tol n x None dual) as (xf & xsf & df & E).
+  rewrite E. intros H. injection H as <- <- <-.
+  (* the first body already yields a non-negative x; the rest of the loop preserves it *)
+  cbn [admm_loop] in E.
+  assert (B : nonnegm (fst (fst (admm_body Rops solve (apply_constr Rops KNonneg) UtM UtU m r x dual)))) by (unfold admm_body; cbn [fst]; apply apply_nonneg_nonneg).
+  destruct (admm_body Rops solve (apply_constr Rops KNonneg) UtM UtU m r x dual) as [[x1 xs1] d1]. cbn [fst] in B.
+  destruct (admm_stop Rops m tol x x1 xs1 d1).
+  - injection E as <- _ _. exact B.
+  - pose proof (admm_nonneg_loop solve UtM UtU m r tol n x1 (Some xs1) d1 B) as H. rewrite E in H. exact H.
+Qed.
